@@ -152,3 +152,76 @@ Example C04_ex_generated_refuses :
   outcome_of (GuardsProofs.gen_run GuardsProofs.gx (init GuardsProofs.gx)
                 [(0%nat, 72, 120, GuardsProofs.i32le 0); (1%nat, 72, 120, GuardsProofs.i32le 0)]) = Reject.
 Proof. vm_compute. repeat split. Qed.
+
+(* ==== thread.c / cpu.c from source (unit sys) ==== *)
+(* Gen/Sys_gen.v (translate/units/sys.py) renders thread_set_state, thread_set_cpu, thread_unset_cpu,
+   thread_migrate_cpu (thread.c), cpu_update - its DL_FOREACH2 traversal as a fold_left -, cpu_add_thread,
+   cpu_remove_thread, cpu_migrate_thread (cpu.c) and once more the handlers of ovni/event.c, now calling these
+   generated functions, over the C world of Emu/SysPre.v: threads and CPUs with their C fields and their system
+   channels; chan_set on such a channel is the chan_set generated from chan.c (Gen/Chan_gen.v) run on it.
+   SysProofs.Rel0 sx st w: w is the C world at the start of an event in semantic state st (fields = the model's,
+   every system channel flushed and showing the model's view).  SysProofs.Rel sx st st' syn w': the world during /
+   after the event: fields = those of st'; a thread channel untouched or dirty with the view in st'; the CPUs in
+   syn were updated and their five channels hold v_nrun, v_cpupid, v_cputid, th_running and the unique active
+   thread of st'.  So the primitives thread_set_state ... cpu_update of Emu/GuardsPre.v, that
+   C04_handlers_from_source is stated over, are no longer postulated: the generated C refines them
+   (SysProofs.sys_thread_set_state, sys_thread_set_cpu, sys_thread_unset_cpu, sys_thread_migrate_cpu,
+   sys_cpu_update, sys_cpu_add_thread, sys_cpu_remove_thread), their refusals "same state again" / "same CPU again"
+   being chan.c's refusal of a repeated value. *)
+From OV Require Emu.ChanPre Emu.SysPre Gen.Sys_gen Proofs.SysProofs.
+Theorem C04_event_in_c_world_from_source : forall (E : SysPre.senv) st w t cs v p,
+  let sx := SysPre.se_sx E in
+  SysProofs.Rel0 sx st w -> Bind sx st ->
+  length (cpu_touched st) = length (cpu_threads st) ->
+  (forall k, Z.of_nat (length (SysProofs.clst st k)) + 1 < 2 ^ 31) ->
+  (t < length (threads st))%nat ->
+  match GuardsProofs.fst_res (core_step sx st t (DecodeDefs.decode_ovni cs 72 v p)) with
+  | Ok st' => exists w' syn, SysPre.exec (Sys_gen.model_ovni_event (GuardsProofs.mk_emu t 72 v p)) E w = Ok w' /\ SysProofs.Rel sx st st' syn w' /\
+              SysProofs.Quiet sx st st' syn
+  | Err _ => exists e', SysPre.exec (Sys_gen.model_ovni_event (GuardsProofs.mk_emu t 72 v p)) E w = Err e' /\ e' <> SysPre.E_TRAP
+  end.
+Proof. exact SysProofs.sys_thread_event_eq. Qed.
+Print Assumptions C04_event_in_c_world_from_source.
+
+(* whole histories: the generated dispatcher for every event, then the flush of the dirty channels
+   (SysProofs.flush_world: what chan_flush generated from chan.c does to each of them, SysProofs.flush_generated),
+   started in the initial C world, against the model's run.  run_ok: the events are thread / affinity events of
+   threads of the trace, and no OAr targets the CPU its remote thread is already on. *)
+Theorem C04_histories_in_c_world_from_source : forall (E : SysPre.senv) cs evs,
+  let sx := SysPre.se_sx E in
+  Z.of_nat (length (s_threads sx)) + 1 < 2 ^ 31 -> SysProofs.run_ok sx cs (init sx) evs ->
+  match GuardsProofs.model_run sx cs (init sx) evs with
+  | Ok st' => exists w', SysProofs.sys_run E (SysProofs.w_init sx) evs = Ok w' /\ SysProofs.Rel0 sx st' w'
+  | Err _ => exists e', SysProofs.sys_run E (SysProofs.w_init sx) evs = Err e' /\ e' <> SysPre.E_TRAP
+  end.
+Proof. exact SysProofs.sys_run_init_eq. Qed.
+Print Assumptions C04_histories_in_c_world_from_source.
+
+(* the end-of-event flush keeps the relation: after it every system channel is clean and shows the view in the new
+   state (Quiet: the channels the event did not write already showed it) *)
+Theorem C04_flush_in_c_world : forall sx st0 st' syn w',
+  SysProofs.Rel sx st0 st' syn w' -> SysProofs.Quiet sx st0 st' syn -> SysProofs.Rel0 sx st' (SysProofs.flush_world w').
+Proof. exact SysProofs.flush_Rel0. Qed.
+Print Assumptions C04_flush_in_c_world.
+
+(* the initial C world (threads Unknown and unbound, channels never written) is such a start *)
+Theorem C04_initial_c_world : forall sx, SysProofs.Rel0 sx (init sx) (SysProofs.w_init sx).
+Proof. exact SysProofs.init_Rel0. Qed.
+Print Assumptions C04_initial_c_world.
+
+(* thread_set_state generated from thread.c refines the primitive, for every target state a handler uses: same
+   refusals (no CPU; the state the thread already has - from chan.c), same fields, the state and TID channels
+   written as the model's views *)
+Theorem C04_thread_set_state_from_source : forall (E : SysPre.senv) st0 st w t s c0 c1 c2,
+  SysProofs.Rel (SysPre.se_sx E) st0 st [] w -> (t < length (threads st))%nat -> s <> Unknown ->
+  SysPre.s_chans (SysPre.sth w t) = [c0; c1; c2] -> ChanPre.is_dirty c1 = 0 -> ChanPre.is_dirty c2 = 0 ->
+  match GuardsPre.thread_set_state (Some t) (tst_code s) (SysPre.se_sx E) st with
+  | Ok (_, st') => exists w', Sys_gen.thread_set_state (Some t) (tst_code s) E w = Ok (tt, w') /\
+                              st' = set_thread st t (with_state (SysProofs.thrst st t) s) /\
+                              SysProofs.Rel (SysPre.se_sx E) st0 st' [] w' /\ SysProofs.frame_thread w w' t /\
+                              nth 0 (SysPre.s_chans (SysPre.sth w' t)) c0 = c0
+  | Err e => exists e', Sys_gen.thread_set_state (Some t) (tst_code s) E w = Err e' /\ e' <> SysPre.E_TRAP
+  end.
+Proof. exact (fun E st0 st w t s c0 c1 c2 HR Ht => SysProofs.sys_thread_set_state E st0 st w t HR Ht s c0 c1 c2). Qed.
+Print Assumptions C04_thread_set_state_from_source.
+(* ==== end of block (unit sys) ==== *)
